@@ -263,7 +263,13 @@ def o4(ctx: Ctx, ties_matter: bool = True):
         return [ctx.ob("C08.O4", f, L, status=INCONCLUSIVE, detail=f"expected one guard per level, found {len(guards)}", construct="guard")]
     G = guards[0]
     # ---- guard: A + len(C) > limit
-    t = _strip_not(G.test)
+    import copy
+
+    from ..core import _Subst
+
+    # arithmetic locals (e.g. a hoisted `cutoff = limit - active`) are substituted before the guard is read
+    arith = {k: v for k, v in defs.items() if len(v) == 1 and isinstance(v[0], ast.BinOp)}
+    t = _strip_not(_Subst(arith, 3).visit(copy.deepcopy(G.test)))
     okg = False
     A = C = None
     shape = False
@@ -336,7 +342,7 @@ def o4(ctx: Ctx, ties_matter: bool = True):
         st_a, why_a = VIOLATION, f"the number of active demes is taken to be the constant {norm(Aexp)}"
     obs.append(ctx.ob("C08.O4", f, Aexp, status=st_a, detail="active = number of is_active demes on the target level" if st_a == OK and why_a.startswith("cannot") else why_a, construct="active-count"))
     # ---- C = concatenation of candidates[d].individuals over the parents D of this level; later filtered lists are exactly those
-    cdefs = defs.get(C, [])
+    cdefs = [dd for dd in defs.get(C, []) if not (isinstance(dd, ast.Call) and norm(dd.func) == "sorted" and dd.args and norm(dd.args[0]) == C)]
     ok_c = False
     D = None
     if len(cdefs) == 1 and isinstance(cdefs[0], ast.ListComp) and len(cdefs[0].generators) == 2:
